@@ -9,6 +9,15 @@
 //!            replaced by `i as f64` computed here, so that "mixed = float operation on the converted
 //!            integer" can be judged on the implementation alone.
 //! case: {"kind": "cmp" | "arith", "x": value, "y": value}
+//!
+//! kind "lit" (C11): x, y (and optionally z with a second operator "op2") are numbers written into the program
+//! text as LITERALS, so that the compiler's constant evaluator `Op::resolve_constant` sees them.  For each of
+//! + - * / the expression E = `x op y` (or `(x op y) op2 z`) is evaluated
+//!   plain : `[E]`                                   -- run time, Op::resolve
+//!   zip   : `zip([E], [0])`                         -- the array argument is a ConstOrExpr: the folded constant is the value
+//!   var   : `x = E; object_from_array([["k", x]])`  -- the constant reaches the consumer through a variable
+//! A fallible E (constant zero divisor, constant NaN) is written `(E ?? "ERR")`; folding must then give up.
+//! Each literal is first checked to denote exactly the intended value on both paths ("lit_ok").
 use serde_json::{json, Map, Value as J};
 use std::cell::RefCell;
 use std::collections::HashMap;
@@ -108,7 +117,123 @@ fn converted(v: &Value) -> Value {
     }
 }
 
+// ---------------------------------------------------------------------------------------------------------
+// literal operands: compile-time constant folding vs run time
+// ---------------------------------------------------------------------------------------------------------
+
+fn literal(v: &Value) -> Option<String> {
+    match v {
+        Value::Integer(i) => Some(if *i < 0 { format!("({i})") } else { format!("{i}") }),
+        Value::Float(f) => {
+            let f = f.into_inner();
+            if !f.is_finite() {
+                return None;
+            }
+            let mut s = format!("{f}"); // positional notation, shortest digits that round-trip
+            if !s.contains('.') {
+                s.push_str(".0");
+            }
+            Some(if s.starts_with('-') { format!("({s})") } else { s })
+        }
+        _ => None,
+    }
+}
+
+fn op_symbol(op: &str) -> &'static str {
+    match op {
+        "add" => "+",
+        "sub" => "-",
+        "mul" => "*",
+        "div" => "/",
+        _ => panic!("bad op"),
+    }
+}
+
+fn run_source(src: &str) -> Result<Result<Value, ()>, String> {
+    thread_local! {
+        static FNS: Vec<Box<dyn vrl::compiler::Function>> = vrl::stdlib::all();
+    }
+    let res = FNS.with(|fns| vrl::compiler::compile(src, fns)).map_err(|e| format!("{e:?}"))?;
+    let mut target = TargetValue {
+        value: Value::Object(ObjectMap::new()),
+        metadata: Value::Object(ObjectMap::new()),
+        secrets: Secrets::default(),
+    };
+    Ok(Runtime::default()
+        .resolve(&mut target, &res.program, &TimeZone::default())
+        .map_err(|_| ()))
+}
+
+/// Runs `wrap(E)`; when that does not compile (E is fallible) runs `wrap((E ?? "ERR"))`.
+/// `pick` extracts the value of E from the program's result.
+fn eval_wrapped(e: &str, wrap: &dyn Fn(&str) -> String, pick: &dyn Fn(Value) -> Option<Value>) -> J {
+    let out = match run_source(&wrap(e)) {
+        Ok(r) => r,
+        Err(first) => match run_source(&wrap(&format!("({e} ?? \"ERR\")"))) {
+            Ok(r) => r,
+            Err(second) => return json!({"harness_error": format!("neither form compiles: {first} /// {second}")}),
+        },
+    };
+    match out {
+        Err(()) => json!({"err": "e"}),
+        Ok(v) => match pick(v) {
+            Some(Value::Bytes(b)) if &b[..] == b"ERR" => json!({"err": "e"}),
+            Some(v) => json!({"ok": to_json(&v)}),
+            None => json!({"harness_error": "unexpected shape of the program result"}),
+        },
+    }
+}
+
+fn first_of_array(v: Value) -> Option<Value> {
+    match v {
+        Value::Array(mut a) if !a.is_empty() => Some(a.remove(0)),
+        _ => None,
+    }
+}
+
+fn eval_three_ways(e: &str) -> J {
+    let plain = eval_wrapped(e, &|e| format!("[{e}]"), &first_of_array);
+    let zip = eval_wrapped(e, &|e| format!("zip([{e}], [0])"), &|v| first_of_array(v).and_then(first_of_array));
+    let var = eval_wrapped(e, &|e| format!("x = {e}\nobject_from_array([[\"k\", x]])"), &|v| match v {
+        Value::Object(mut m) => m.remove("k"),
+        _ => None,
+    });
+    json!({"plain": plain, "zip": zip, "var": var})
+}
+
+fn run_lit(case: &J) -> J {
+    let x = from_json(&case["x"]);
+    let y = from_json(&case["y"]);
+    let z = case.get("z").filter(|z| !z.is_null()).map(from_json);
+    let mut lits = vec![];
+    for v in [Some(&x), Some(&y), z.as_ref()].into_iter().flatten() {
+        match literal(v) {
+            Some(l) => lits.push((l, v.clone())),
+            None => return json!({"harness_error": format!("no literal for {v}")}),
+        }
+    }
+    // every literal denotes exactly its value, at run time and as a folded constant
+    let mut lit_ok = true;
+    for (l, v) in &lits {
+        let r = eval_three_ways(l);
+        let want = json!({"ok": to_json(v)});
+        lit_ok &= r["plain"] == want && r["zip"] == want && r["var"] == want;
+    }
+    let mut out = Map::new();
+    for op in ["add", "sub", "mul", "div"] {
+        let mut e = format!("{} {} {}", lits[0].0, op_symbol(op), lits[1].0);
+        if z.is_some() {
+            e = format!("({e}) {} {}", op_symbol(case["op2"].as_str().unwrap()), lits[2].0);
+        }
+        out.insert(op.to_string(), eval_three_ways(&e));
+    }
+    json!({"lit_ok": lit_ok, "res": out})
+}
+
 pub fn run(case: &J) -> J {
+    if case["kind"] == "lit" {
+        return run_lit(case);
+    }
     let x = from_json(&case["x"]);
     let y = from_json(&case["y"]);
     let ops: &[&str] = match case["kind"].as_str().unwrap() {
